@@ -6,6 +6,7 @@ from ..interp_prop import InterpProp
 class C06(InterpProp):
     id = 'C06'
     decoy = 0.12
+    edited = 0.25
     # observables compared with the model (see InterpProp.normalize)
     cmp_eff = ()
     cmp_step = ('transition', 'entered', 'exited')
